@@ -46,7 +46,7 @@ class Ref:
         self.frame = frame
 
     def __repr__(self):
-        return "Ref(_%s%s)" % (self.local, self.proj)
+        return "Ref(%s_%s%s)" % (("f%s:" % self.frame) if self.frame is not None else "", self.local, self.proj)
 
 
 class HRef:
@@ -97,6 +97,9 @@ class Path:
         self.env = {}
 
 
+_FID = [0]
+
+
 class Interp:
     def __init__(self, body, oracle, args, max_visits=3, max_paths=4000, facts=None, inline=None, depth=0, max_depth=8):
         """args: list of initial values for _1.._argc (TOP for unknown).
@@ -112,20 +115,71 @@ class Interp:
         self.inline = inline
         self.depth = depth
         self.max_depth = max_depth
+        _FID[0] += 1
+        self.fid = _FID[0]
         self.init_state = {}
         self.mstate = {}   # model state of the path being executed (oracles may read and update it)
         self.slice_len = None    # hook: length of a modelled slice value
         self.index_hook = None   # hook: indexing into a modelled collection
 
+    def frame_env(self, env, ref):
+        """the environment a reference's target lives in"""
+        fr = getattr(ref, "frame", None)
+        if fr is None or fr == self.fid or (fr == "root" and self.depth == 0):
+            return env
+        return self.mstate.get("frames", {}).get(fr, env)
+
+    def _tag(self, v, fid, depth=0):
+        """untagged references found inside a foreign frame belong to that frame"""
+        if depth > 6:
+            return v
+        if isinstance(v, Ref) and getattr(v, "frame", None) is None:
+            return Ref(v.local, v.proj, frame=fid)
+        if isinstance(v, Agg) and any(isinstance(x, (Ref, Agg)) for x in v.fields):
+            return Agg(v.kind, v.name, v.variant, [self._tag(x, fid, depth + 1) for x in v.fields])
+        return v
+
+    def read_ref(self, env, ref):
+        e2 = self.frame_env(env, ref)
+        v = self._project(e2, e2.get(ref.local, TOP), ref.proj)
+        fr = getattr(ref, "frame", None)
+        if fr is not None and fr != self.fid:
+            v = self._tag(v, fr)
+        return v
+
+    def write_ref(self, env, ref, val, extra_proj=()):
+        e2 = self.frame_env(env, ref)
+        self.write_place(e2, [ref.local, list(ref.proj) + list(extra_proj)], val)
+
     def freeze(self, env, v, depth=0):
-        """values crossing a frame boundary: references into the caller's locals are replaced by the
-        values they point to (the callee cannot write through them; mutation is modelled by oracles)"""
+        """values crossing a frame boundary: references into this frame's locals are tagged with the frame
+        (the callee reads and writes through them; the caller's environment is registered in the model state)"""
         if depth > 6:
             return TOP
         if isinstance(v, Ref):
-            return self.freeze(env, self.read_place(env, [v.local, v.proj]), depth + 1)
+            tgt = self.read_ref(env, v)
+            if isinstance(tgt, (Sym, HRef)) or hasattr(tgt, "vid"):
+                return tgt       # symbols and heap handles are reference-like themselves
+            if isinstance(tgt, Ref):
+                return self.freeze(env, tgt, depth + 1)
+            if getattr(v, "frame", None) is None:
+                fr = dict(self.mstate.get("frames", {}))
+                fr[self.fid] = env
+                self.mstate["frames"] = fr
+                return Ref(v.local, v.proj, frame=self.fid)
+            return v
         if isinstance(v, Agg):
             return Agg(v.kind, v.name, v.variant, [self.freeze(env, x, depth + 1) for x in v.fields])
+        return v
+
+    def resolve_own(self, env, v, depth=0):
+        """a value leaving this frame: references to this frame's own locals are replaced by their targets"""
+        if depth > 6:
+            return TOP
+        if isinstance(v, Ref) and (getattr(v, "frame", None) in (None, self.fid)) and not (self.depth == 0):
+            return self.resolve_own(env, self._project(env, env.get(v.local, TOP), v.proj), depth + 1)
+        if isinstance(v, Agg):
+            return Agg(v.kind, v.name, v.variant, [self.resolve_own(env, x, depth + 1) for x in v.fields])
         return v
 
     # ---- nested interpretation
@@ -149,7 +203,7 @@ class Interp:
         sub.init_state = dict(self.mstate)
         outs = []
         for p in sub.run():
-            outs.append((p.ret, [Event("enter", -1, fn.key)] + p.events, p.end, p.mstate))
+            outs.append((sub.resolve_own(p.env, p.ret) if p.end == "return" else p.ret, [Event("enter", -1, fn.key)] + p.events, p.end, p.mstate))
         return outs or [(TOP, [], "diverge", dict(self.mstate))]
 
     def call_value(self, fv, args, rust_call=False):
@@ -159,6 +213,11 @@ class Interp:
             return None
         if rust_call and len(args) == 1 and isinstance(args[0], Agg) and args[0].kind == "tuple":
             args = list(args[0].fields)
+        hops = 0
+        while isinstance(fv, Ref) and hops < 4:      # `&mut closure` / `&fn item`
+            fr = getattr(fv, "frame", None)
+            fv = self.read_ref(getattr(self, "cur_env", None) or {}, fv)
+            hops += 1
         if isinstance(fv, Agg) and fv.kind == "closure":
             fn = self.facts.fn_opt(fv.name)
             if fn is None:
@@ -256,7 +315,7 @@ class Interp:
                 return TOP
             if e == "*":
                 if isinstance(v, Ref):
-                    v = self._project(env, env.get(v.local, TOP), v.proj)
+                    v = self.read_ref(env, v)
                 elif isinstance(v, HRef):
                     items = self.mstate.get("heap", {}).get(v.vid, ())
                     v = items[v.idx] if v.idx < len(items) else TOP
@@ -306,7 +365,7 @@ class Interp:
         e = proj[0]
         if e == "*":
             if isinstance(base, Ref):
-                self.write_place(env, [base.local, base.proj + list(proj[1:])], val)
+                self.write_ref(env, base, val, proj[1:])
                 return base
             if isinstance(base, HRef):
                 h = dict(self.mstate.get("heap", {}))
@@ -426,7 +485,7 @@ class Interp:
             if p[1] and p[1][0] == "*":
                 base = env.get(p[0], TOP)
                 if isinstance(base, Ref):
-                    return Ref(base.local, base.proj + list(p[1][1:]))
+                    return Ref(base.local, base.proj + list(p[1][1:]), frame=getattr(base, "frame", None))
                 if isinstance(base, Sym):
                     if len(p[1]) == 1:
                         return base
@@ -596,6 +655,10 @@ class Interp:
                 if k == "call":
                     f = t["f"]
                     self.cur_env = env
+                    if self.depth == 0:
+                        fr_ = dict(mstate.get("frames", {}))
+                        fr_["root"] = env      # harness-made references (frame="root") live in the root frame
+                        mstate["frames"] = fr_
                     args = [self.operand(env, a) for a in t["args"]]
                     ckey = f.get("resolved", {}).get("key") or f.get("key") or f.get("kind")
                     outs = None
@@ -678,7 +741,7 @@ def std_oracle(interp, env, f, args, t, bb, path):
         while n < 6:
             n += 1
             if isinstance(v, Ref):
-                v = interp.read_place(env, [v.local, v.proj])
+                v = interp.read_ref(env, v)
             elif isinstance(v, HRef):
                 items = interp.mstate.get("heap", {}).get(v.vid, ())
                 v = items[v.idx] if v.idx < len(items) else TOP
@@ -734,7 +797,7 @@ def std_oracle(interp, env, f, args, t, bb, path):
                "core::convert::AsRef::as_ref", "core::convert::AsMut::as_mut"):
         # a guard / smart pointer held in a local: its target is what the local's value refers to
         if isinstance(a0, Ref):
-            inner = interp.read_place(env, [a0.local, a0.proj])
+            inner = interp.read_ref(env, a0)
             if isinstance(inner, (Ref, HRef)):
                 return inner
         v = deref(a0)
@@ -756,6 +819,10 @@ def std_oracle(interp, env, f, args, t, bb, path):
                 return not (lo <= hi) if incl else not (lo < hi)
             if name in ("start", "end") and incl:
                 return lo if name == "start" else hi
+    if key == "alloc::boxed::Box::new":
+        return a0
+    if key in ("core::any::type_name",):
+        return Sym("type_name:%s" % (f.get("gargs") or ["?"])[0])
     if key.startswith("eyre::WrapErr::") or key.startswith("color_eyre::section::Section::") or key.startswith("color_eyre::Section::"):
         v = deref(a0)
         if isinstance(v, Agg) and v.name == "core::result::Result":
